@@ -36,7 +36,10 @@ LEVEL_NOTE = ("Trusted: Lean kernel; Go memory model (each typed-atomic access i
               "removeInternal (ops hremove/hclear; hclear re-enacts Clear's two loops around it). Remove/Clear/Add themselves are "
               "driven as whole calls, sequentially, from concurrent goroutines, and (op hrace) in every order relative to timer "
               "goroutines that are already queued on c.mu, including a re-Add of the removed key before the stale goroutine runs.")
-GAP = ("interleavings INSIDE a critical section of TimeoutCache (they are atomic under c.mu); int32 wrap-around of refCount; real "
+GAP = ("the replayed schedules (T3) interleave only at the yield points tools/instrument can insert: atomic accesses inside "
+       "function literals or behind sync.Once/sync.Mutex are not separated, so a rewritten Fire/TryIncrement with such steps is "
+       "explored by real-parallel stress rounds (cfire/cref: probabilistic; 800 rounds quick, 16000 thorough) rather than exhaustively; "
+       "interleavings INSIDE a critical section of TimeoutCache (they are atomic under c.mu); int32 wrap-around of refCount; real "
        "(non-virtual) timers. The three-party race 'timer fired and queued on c.mu / Remove or Clear / re-Add of the same key' is "
        "driven through the public API by op hrace: on one processor (GOMAXPROCS(1)) a goroutine woken by Unlock cannot run before "
        "the harness goroutine yields, so the order of the three critical sections is chosen by the harness; if the runtime "
@@ -48,7 +51,9 @@ ASSUMPTIONS = ["Increment is only called by a holder of a live reference (docume
 RULE = ("refcounted: schedules over i1..i3 (TryIncrement), a1..a2 (Increment), d1..d4 (Decrement): directed windows (Load, then a "
         "Decrement to 0, then the stale CAS; racing CASes; surplus Decrements; Increment after death) + random bursts in two phases "
         "(acquire-heavy, then release-heavy); event: every interleaving of up to 4 firers x 2 steps plus HasFired readers, random "
-        "orders; s_timeoutcache: random op sequences over 3 keys with sleeps landing before/on/after deadlines, lock-held windows "
+        "orders, and n = 2,3,4,8 REAL goroutines released from a spin barrier firing a fresh Event per round (op cfire; likewise cref "
+        "for RefCounted: n TryIncrement(+Decrement) racing the last Decrement) to reach windows between accesses that the source "
+        "instrumenter cannot separate (closures, sync.Once/Mutex internals); s_timeoutcache: random op sequences over 3 keys with sleeps landing before/on/after deadlines, lock-held windows "
         "(hremove/hclear) clamped to the next deadline, concurrent Add/Remove/Remove||Clear, and the three-party races hrace: "
         "{Remove, Clear(false), Clear(true)} x re-Add of the same or another key x the queued timer goroutines in the orders R-A-T, "
         "R-T-A, T-R-A, followed by sleeps past the new entry's deadline. A case is non-trivial if (refcounted) "
@@ -196,6 +201,11 @@ def gen(rng, tier):
     for i in range(n // 2):
         ths = ["f1", "f2", "f3", "f4", "f5", "h1", "h2"][:rng.randrange(2, 8)]
         yield Case("event", burst(rng, ths, rng.randrange(4, 30), 1.2), "ev-random-%d" % i)
+    # real parallelism (no replayed schedule): windows the source instrumenter cannot separate
+    rounds = {"quick": 50, "thorough": 1000, "search": 300}[tier]
+    for i, nf in enumerate((2, 3, 4, 8)):
+        yield Case("event", ["cfire %d %d" % (nf, rounds)] * 2, "ev-parallel-%d" % i)
+        yield Case("refcounted", ["cref %d %d" % (nf, rounds)], "rc-parallel-%d" % i)
     for i, ops in enumerate(tc_directed()):
         yield Case("s_timeoutcache", ops, "tc-directed-%d" % i)
     for i in range(n):
@@ -203,6 +213,8 @@ def gen(rng, tier):
 
 
 def nontrivial(case, impl):
+    if case.ops and case.ops[0].startswith("c"):
+        return True
     if case.component == "refcounted":
         return any(" zeros=1 " in l for l in impl) and any(op.startswith("step i") for op in case.ops)
     if case.component == "event":
